@@ -38,8 +38,8 @@ func checkC17(c *Ctx, r *Report) {
 	r.rule("C17.R6.keyfile-last-line", 1, "the key-file lexer refuses to flush its pending token only for a real read error, not for io.EOF")
 	lexerTailGuard(c, r, "C17.R6.keyfile-last-line", "klexer.Next", "the last line of a private-key file without a final newline (the PrivateKey line of the library's own ECDSA / Ed25519 export) is dropped and ReadPrivateKey returns a zero key without an error")
 	c17Unhashable(c, r, "C17.R1.unhashable")
-	borrow(c, r, c10R1, "C10.R1.verify-guards", "C17.R4.verify-guards", 4, "RRSIG.Verify's pre-checks on the key: owner name ignoring case, the ZONE flag bit alone, protocol 3", func(k string) bool {
-		return strings.Contains(k, "equal(") || strings.Contains(k, "Flags") || strings.Contains(k, "Protocol")
+	borrow(c, r, c10R1, "C10.R1.verify-guards", "C17.R4.verify-guards", 5, "RRSIG.Verify's pre-checks on the key: owner name ignoring case, the ZONE flag bit alone, protocol 3", func(k string) bool {
+		return strings.Contains(k, "equal(") || strings.Contains(k, "Flags") || strings.Contains(k, "Protocol") || strings.Contains(k, "HasSuffix")
 	}, "a valid key is refused (owner name in another case, flag bits other than ZONE set) or an invalid one accepted")
 	borrow(c, r, c10R1, "C10.R1.verdict", "C17.R4.verdict", 3, "RRSIG.Verify's verdict comes from the verifier fed the key decoded from the DNSKEY it was given", nil, "signatures are checked against another key than the DNSKEY passed in (a cached key of the same name, algorithm and tag)")
 	r.rule("C17.R5.fresh-hash", 1, "hashFromAlgorithm returns a hash state of its own for every call")
@@ -51,6 +51,7 @@ func checkC17(c *Ctx, r *Report) {
 	foldRule(c, r, "C17.R1.name-eq")
 	borrow(c, r, c10R2, "C10.R2.sigwire-fill", "C17.R4.signer-canonical", 2, "Sign and Verify both put the canonical (lower-cased) signer name into the signed data", nil, "a key whose signer name has a capital letter signs data that Verify, which lower-cases, does not reproduce: generated and re-read keys do not verify their own signatures")
 	dsForEveryKey(c, r, "C17.R3.ds-for-every-key")
+	keyScratchSize(c, r, "C17.R8.key-scratch")
 }
 
 // c17R6: the RSA public-key decoder accepts every modulus size the generator can produce.
